@@ -138,6 +138,7 @@ def gen_case(r, pid=None):
             elif r.random() < 0.5:
                 marked["%d,%d" % (i, a)] = r.choice([0, 1, 7, -3, 50])
     fms = r.random() < 0.7
+    comp_root = ncomp >= 2 and r.random() < 0.35
     # ticks
     ticks = []
     words = [(0, 0, 0), (1, 0, 0), (1, 1, 0), (1, 0, 1), (0, 1, 0), (0, 0, 1), (0, 1, 1), (1, 1, 1)]
@@ -168,7 +169,7 @@ def gen_case(r, pid=None):
                 match_type=r.choice([None, None, "kPractice", "kQualification", "kElimination"]),
                 auto_selector=r.choice([None, None, None, "scale_left_2018", "m", ""]),
                 robot_split=(r.randrange(0, ncomp + 1) if ncomp and r.random() < 0.3 else 0),
-                ticks=ticks, raises=[], writes={}, fbval={})
+                ticks=ticks, raises=[], writes={}, fbval={}, comp_root=comp_root, fb_anon=r.random() < 0.3)
     blocks, _ = spec_sites(case)
     flat = [s for b in blocks for s in b]
     total = len(flat)
